@@ -163,6 +163,7 @@ type Exec struct {
 	Inlined map[string]bool
 	Callees map[string]bool // contracted callees used
 	fnName  string
+	traceNames map[string]bool
 	axVars  map[string]*smt.Term // canonical bound variables of closed axioms
 	axDone  map[int]bool
 	localNames map[string]int
